@@ -167,6 +167,10 @@ def corpus_cases():
         ("ValueDataType", "equal_to", [int], {}, [1, True, 1.0, "1"]),
         ("ValueDataType", "in_", [[int, str]], {}, [1, True, 1.0, "1"]),
         ("Value", "is_instance", [int, "a"], {}, [1, "s"]),
+        ("Value", "is_instance", [bool], {}, [1, True, 1.0, 0, False]),
+        ("Value", "is_instance", [int], {}, [True, 1, 1.0, False, 0.0, 0]),
+        ("Value", "is_instance", [float], {}, {"a": 1, "b": 1.0, "c": True}),
+        ("ValueDataType", "equal_to", [float], {}, [1, 1.0, True]),
         ("Key", "equal_to", ["a"], {}, {"a": 1, "b": 2, 1: 3}),
         ("Key", "equal_to", [1], {}, {1.0: 1, True: 2, "1": 3}),
         ("Key", "equal_to", ["a"], {}, [1, 2]),
